@@ -175,6 +175,33 @@ def slice_api(F, S):
     return out, n
 
 
+def returns_only_fresh(fn, ctor, label):
+    """Every value a Slice operation returns is the reader it has just constructed - never *this or a copy of another
+    existing reader, which would carry that reader's current position (a slice starts at its own position 0)."""
+    from ..rules_sib import returns
+    problems = []
+    for r in returns(fn):
+        v = fn.strip(r["value"])
+        if v == ctor["id"] or ctor["id"] in fn.subtree(v) and fn.n(v)["k"] in CTORS and fn.n(v).get("copy_or_move"):
+            continue
+        t = fn.term(v)
+        okl = False
+        if t[0] == "var":
+            for nd in fn.nodes:
+                if nd["k"] == "DeclStmt":
+                    for d in nd.get("decls", []):
+                        if ("var", d.get("n"), d.get("d")) == t and "init" in d and fn.strip(d["init"]) == ctor["id"]:
+                            okl = True
+        if not okl:
+            problems.append((r, t))
+    inst = label + "#returns-fresh"
+    req = "every value returned is the newly constructed slice (position 0 of its own range), not a copy of an existing reader"
+    if not problems:
+        return [ok("R-OWN", inst, fn.loc(ctor["id"]), fn.qn, req, "all returns are the constructed reader")]
+    r, t = problems[0]
+    return [bad("R-OWN", inst, fn.loc(r["id"]), fn.qn, req, "a path returns %s: a copy of an existing reader keeps that reader's current position" % fmt_term(t))]
+
+
 def slice_construction(F, S, inv_slice):
     """Every SliceReader constructor passes Initialize; containment guards precede the positioning seek."""
     out = []
@@ -240,6 +267,7 @@ def slice_construction(F, S, inv_slice):
     n += 1
     good = a[0] == ws and a[1] in (("op", "+", so, st), ("op", "+", st, so)) and a[2] == ln and \
         (prove_le(site, ("op", "+", st, ln), sl) or prove_le(site, ln, ("op", "-", sl, st)))
+    out += returns_only_fresh(s2, ct[0], SR + "::Slice/2")
     if good:
         out.append(ok("R-MUSTCALL", SR + "::Slice/2#nested", s2.loc(ct[0]["id"]), s2.qn,
                       "a nested slice is (wrappedStream, startingOffset + start, length) under start + length <= sliceLength",
@@ -259,6 +287,8 @@ def slice_construction(F, S, inv_slice):
         st, ln = ("var", f2.params[0]["n"], f2.params[0]["d"]), ("var", f2.params[1]["n"], f2.params[1]["d"])
         good = len(a) == 3 and a[1] == st and a[2] == ln and (a[0] == ("un", "*", ("this",)) or
                                                               (a[0][0] == "ctor" and a[0][2] and a[0][2][0] == ("mem", ("this",), "filename")))
+    if ct:
+        out += returns_only_fresh(f2, ct[0], FR + "::Slice/2")
     if good:
         out.append(ok("R-MUSTCALL", FR + "::Slice/2#args", f2.loc(ct[0]["id"]), f2.qn, "a file slice is built from this file with (start, length) unchanged", "shape found"))
     else:
@@ -277,6 +307,7 @@ def slice_construction(F, S, inv_slice):
     n += 1
     good = a[0] in (("un", "&", ("idx", sb, st)), ("op", "+", sb, st)) and a[1] == ln and \
         (prove_le(site, ("op", "+", st, ln), ss) or prove_le(site, ln, ("op", "-", ss, st)))
+    out += returns_only_fresh(m2, ct[0], MR + "::Slice/2")
     if good:
         out.append(ok("R-MUSTCALL", MR + "::Slice/2#extent", m2.loc(ct[0]["id"]), m2.qn,
                       "a memory slice is (buffer + start, length) under start + length <= streamSize", "guard dominates the construction"))
